@@ -172,8 +172,8 @@ UNALLOCATED_SUBCLUSTER_TYPES = (
 
 
 def ctz(value: int, size: int = 32) -> int:
-    """Count the number of zero bits in an integer of a given size."""
+    """Count the number of trailing zero bits in an integer of a given size (``size`` if the value is zero)."""
     for i in range(size):
         if value & (1 << i):
             return i
-    return 0
+    return size
